@@ -55,7 +55,7 @@ func (g *jsGen) expr(d int) string {
 		return g.v()
 	}
 	sub := func() string { return g.expr(d - 1) }
-	switch g.r.Intn(34) {
+	switch g.r.Intn(36) {
 	case 0, 1:
 		return g.prim()
 	case 2, 3:
@@ -167,6 +167,16 @@ func (g *jsGen) expr(d int) string {
 			fmt.Sprintf("%s()===%s()", v, v),
 			fmt.Sprintf("(function(x){return [x instanceof RegExp, x instanceof Array, x instanceof Object, x.mark].join()})(%s)", v),
 			fmt.Sprintf("(function(x){return x[0] instanceof RegExp && x[1] instanceof Object && x[2] instanceof Array})(%s())", v))
+	case 34:
+		// a closure made inside a with body that calls a BARE identifier found in the with object: the
+		// callee's this is the with object (10.2.1.2.6 ImplicitThisValue) – also on a copy
+		g.feat["with-this"] = true
+		return g.pick(
+			fmt.Sprintf("(function(){ var env={tag:%s, who:function(){return this===env ? \"env\" : (this===undefined ? \"undef\" : typeof this)}}; with(env){ return function(){ return who() } } })()", sub()),
+			"(function(){ var env={tag:1}; with(env){ return function(){ return hasOwnProperty(\"tag\") } } })()",
+			fmt.Sprintf("(function(){ var a={n:\"a\", me:function(){return this.n}}, b={k:%s}; with(a){ with(b){ return function(){ return me()+\":\"+typeof k } } } })()", sub()),
+			"(function(){ with({v:7, get:function(){return this.v}, set:function(w){this.v=w}, inc:function(){return ++this.v}}){ return {get:function(){return get()}, set:function(w){return set(w)}, inc:function(){return inc()}} } })()",
+			fmt.Sprintf("(function(o){ with(o){ return function(){ try { return String(valueOf()===o) } catch(e) { return \"threw\" } } } })(%s)", g.v()))
 	default:
 		g.feat["descriptor-read"] = true
 		return fmt.Sprintf("JSON.stringify(Object.getOwnPropertyDescriptor(%s,%s))", g.v(), g.key())
@@ -345,5 +355,16 @@ func fixedIsolation() [][2]string {
 	m2 := "var again=mk(); again[0].tag=\"side\"; Object.getPrototypeOf(again[1]).sideMark=1; [again[0]===first[0], first[0].tag, again[0] instanceof RegExp, /z/.sideMark, again[1].sideMark].join()"
 	h3 := "var loop=function(){ var out=[]; for (var i=0;i<3;i++) out.push(/l/); return out }; var l0=loop();"
 	m3 := "var l=loop(); l[0].n=1; [l[0]===l[1], l[0]===l0[0], l[1].n, l0[0].n, l[2] instanceof RegExp].join()"
-	return [][2]string{{h1, m1}, {h2, m2}, {h3, m3}, {h1, "r0.mark=5; fr().mark"}, {h1, "1"}}
+	// closures made inside with bodies, calling bare identifiers that resolve in the with object:
+	// nested with, with inside a function, a method using this, a host (native) callee, a setter-like
+	// method writing through this; the global environment must NOT provide this
+	h4 := "var env={tag:\"E\", who:function(){return this===env ? \"env\" : (this===undefined ? \"undef\" : (this===gthis ? \"global\" : typeof this))}, bump:function(){ this.n=(this.n||0)+1; return this.n }};\n" +
+		"var gthis=this; var c1; with(env){ c1=function(){ return who() } }\n" +
+		"var c2=(function(){ var inner={name:\"inner\", me:function(){return this && this.name}}; with(env){ with(inner){ return function(){ return [me(), who(), bump()].join() } } } })();\n" +
+		"var c3=(function(o){ with(o){ return function(){ return hasOwnProperty(\"tag\")+\":\"+(valueOf()===o) } } })(env);\n" +
+		"function gwho(){ return this===undefined ? \"undef\" : (this===gthis ? \"global\" : typeof this) } var c4=function(){ return gwho() };\n" +
+		"c1(); c2();"
+	m4 := "[c1(), c2(), c3(), c4(), env.n].join(\"|\")"
+	m5 := "var r1=[c1(), c2(), c3(), c4()].join(\"|\"); env.who=function(){ return \"replaced:\"+(this===env) }; r1+\"|\"+c1()+\"|\"+env.n"
+	return [][2]string{{h1, m1}, {h2, m2}, {h3, m3}, {h1, "r0.mark=5; fr().mark"}, {h1, "1"}, {h4, m4}, {h4, m5}}
 }
